@@ -68,7 +68,7 @@ func runC18(p *Program, r *Result) {
 		var line ssa.Value
 		for b := range loop.Blocks {
 			for _, in := range b.Instrs {
-				if c, ok := in.(*ssa.Call); ok && calleeName(&c.Call) == "(*bufio.Scanner).Text" {
+				if c, ok := in.(*ssa.Call); ok && (calleeName(&c.Call) == "(*bufio.Scanner).Text" || calleeName(&c.Call) == "(*bufio.Scanner).Bytes") {
 					line = c
 				}
 			}
